@@ -114,7 +114,10 @@ theorem rrfScan_shape (tbl : List Frag) : ∀ (sps : List Spread) (col : List St
       (rrfScan tbl sps col frs stk).2.1 = frs ++ added ∧
       (rrfScan tbl sps col frs stk).2.2 = (added.map (·.sel)).reverse ++ stk ∧
       added.length + unc (fragNames tbl) (rrfScan tbl sps col frs stk).1 ≤ unc (fragNames tbl) col ∧
-      ∀ f, f ∈ added → f ∈ tbl
+      (∀ f, f ∈ added → f ∈ tbl) ∧
+      (∀ x, x ∈ col → x ∈ (rrfScan tbl sps col frs stk).1) ∧
+      (∀ f, f ∈ added → f.name.value ∉ col ∧ f.name.value ∈ (rrfScan tbl sps col frs stk).1) ∧
+      (added.map (·.name.value)).Nodup
   | [], col, frs, stk => ⟨[], by simp [rrfScan]⟩
   | sp :: rest, col, frs, stk => by
     simp only [rrfScan]
@@ -123,8 +126,9 @@ theorem rrfScan_shape (tbl : List Frag) : ∀ (sps : List Spread) (col : List St
     · rename_i hcol
       split
       · rename_i f hl
-        obtain ⟨added, h1, h2, h3, h4⟩ := rrfScan_shape tbl rest (sp.name :: col) (frs ++ [f]) (f.sel :: stk)
-        refine ⟨f :: added, ?_, ?_, ?_, ?_⟩
+        obtain ⟨added, h1, h2, h3, h4, h5, h6, h7⟩ := rrfScan_shape tbl rest (sp.name :: col) (frs ++ [f]) (f.sel :: stk)
+        have hfn : f.name.value = sp.name := (lookupFrag_some hl).2
+        refine ⟨f :: added, ?_, ?_, ?_, ?_, ?_, ?_, ?_⟩
         · rw [h1]; simp
         · rw [h2]; simp
         · have := unc_cons_lt (fragNames tbl) col sp.name (lookupFrag_mem_names hl) hcol
@@ -134,8 +138,18 @@ theorem rrfScan_shape (tbl : List Frag) : ∀ (sps : List Spread) (col : List St
           rcases List.mem_cons.1 hg with rfl | hg
           · exact (lookupFrag_some hl).1
           · exact h4 g hg
-      · obtain ⟨added, h1, h2, h3, h4⟩ := rrfScan_shape tbl rest (sp.name :: col) frs stk
-        refine ⟨added, h1, h2, ?_, h4⟩
+        · exact fun x hx => h5 x (List.mem_cons_of_mem _ hx)
+        · intro g hg
+          rcases List.mem_cons.1 hg with rfl | hg
+          · rw [hfn]; exact ⟨hcol, h5 _ List.mem_cons_self⟩
+          · exact ⟨fun hc => (h6 g hg).1 (List.mem_cons_of_mem _ hc), (h6 g hg).2⟩
+        · simp only [List.map_cons]
+          refine List.nodup_cons.2 ⟨fun hm => ?_, h7⟩
+          obtain ⟨g, hg, hge⟩ := List.mem_map.1 hm
+          exact (h6 g hg).1 (by rw [hge, hfn]; exact List.mem_cons_self)
+      · obtain ⟨added, h1, h2, h3, h4, h5, h6, h7⟩ := rrfScan_shape tbl rest (sp.name :: col) frs stk
+        refine ⟨added, h1, h2, ?_, h4, fun x hx => h5 x (List.mem_cons_of_mem _ hx),
+          fun g hg => ⟨fun hc => (h6 g hg).1 (List.mem_cons_of_mem _ hc), (h6 g hg).2⟩, h7⟩
         have := unc_cons_le (fragNames tbl) col sp.name
         omega
 
@@ -153,7 +167,8 @@ theorem rrfLoopC_count (tbl : List Frag) (fsCost : SelectionSet → Nat) :
     ∃ added : List Frag,
       (rrfLoopC tbl fsCost fuel stk col frs n).1.1 = frs ++ added ∧
       (rrfLoopC tbl fsCost fuel stk col frs n).2 = n + popSum fsCost stk + popSum fsCost (added.map (·.sel)) ∧
-      added.length ≤ unc (fragNames tbl) col ∧ ∀ f, f ∈ added → f ∈ tbl := by
+      added.length ≤ unc (fragNames tbl) col ∧ (∀ f, f ∈ added → f ∈ tbl) ∧
+      (∀ f, f ∈ added → f.name.value ∉ col) ∧ (added.map (·.name.value)).Nodup := by
   intro fuel
   induction fuel with
   | zero =>
@@ -167,26 +182,37 @@ theorem rrfLoopC_count (tbl : List Frag) (fsCost : SelectionSet → Nat) :
     | nil => exact ⟨[], by simp [rrfLoopC, popSum]⟩
     | cons s stk =>
       simp only [rrfLoopC]
-      obtain ⟨a1, h1, h2, h3, h4⟩ := rrfScan_shape tbl (fragmentSpreads s) col frs stk
+      obtain ⟨a1, h1, h2, h3, h4, h5, h6, h7⟩ := rrfScan_shape tbl (fragmentSpreads s) col frs stk
       rw [h1, h2]
       have hf : ((a1.map (·.sel)).reverse ++ stk).length +
           unc (fragNames tbl) (rrfScan tbl (fragmentSpreads s) col frs stk).1 ≤ fuel := by
         simp only [List.length_append, List.length_reverse, List.length_map, List.length_cons] at h ⊢
         omega
-      obtain ⟨a2, g1, g2, g3, g4⟩ := ih ((a1.map (·.sel)).reverse ++ stk)
+      obtain ⟨a2, g1, g2, g3, g4, g5, g6⟩ := ih ((a1.map (·.sel)).reverse ++ stk)
         (rrfScan tbl (fragmentSpreads s) col frs stk).1 (frs ++ a1)
         (n + 1 + fsCost s + (fragmentSpreads s).length) hf
-      refine ⟨a1 ++ a2, ?_, ?_, ?_, ?_⟩
+      refine ⟨a1 ++ a2, ?_, ?_, ?_, ?_, ?_, ?_⟩
       · rw [g1]; simp
-      · rw [g2]
-        simp only [popSum_append, popSum_reverse, List.map_append, popSum, List.map_cons, List.sum_cons, popCost,
-          fragmentSpreads_length]
+      · rw [g2, List.map_append, popSum_append, popSum_append, popSum_reverse]
+        have hc : popSum fsCost (s :: stk) = popCost fsCost s + popSum fsCost stk := by simp [popSum]
+        rw [hc]
+        simp only [popCost, fragmentSpreads_length]
         omega
       · simp only [List.length_append]; omega
       · intro f hf
         rcases List.mem_append.1 hf with hf | hf
         · exact h4 f hf
         · exact g4 f hf
+      · intro f hf
+        rcases List.mem_append.1 hf with hf | hf
+        · exact (h6 f hf).1
+        · exact fun hc => g5 f hf (h5 _ hc)
+      · rw [List.map_append]
+        refine List.nodup_append.2 ⟨h7, g6, ?_⟩
+        intro a ha b hb hab
+        obtain ⟨f, hf, rfl⟩ := List.mem_map.1 ha
+        obtain ⟨g, hg, rfl⟩ := List.mem_map.1 hb
+        exact g5 g hg (by rw [← hab]; exact (h6 f hf).2)
 
 /-- steps of one `RecursivelyReferencedFragments(op)`: the operation's selection set and the selection set of every
 fragment it returns are popped exactly once -/
@@ -194,21 +220,22 @@ theorem rrfSteps_eq (tbl : List Frag) (fsCost : SelectionSet → Nat) (opSel : S
     rrfSteps tbl fsCost opSel =
       popCost fsCost opSel + popSum fsCost ((recursivelyReferenced tbl opSel).map (·.sel)) ∧
     (recursivelyReferenced tbl opSel).length ≤ tbl.length ∧
-    ∀ f, f ∈ recursivelyReferenced tbl opSel → f ∈ tbl := by
+    (∀ f, f ∈ recursivelyReferenced tbl opSel → f ∈ tbl) ∧
+    ((recursivelyReferenced tbl opSel).map (·.name.value)).Nodup := by
   have hf : [opSel].length + unc (fragNames tbl) [] ≤ tbl.length + 1 := by
     have := unc_le_length (fragNames tbl) []
     simp [fragNames] at this ⊢
     omega
-  obtain ⟨added, h1, h2, h3, h4⟩ := rrfLoopC_count tbl fsCost (tbl.length + 1) [opSel] [] [] 0 hf
+  obtain ⟨added, h1, h2, h3, h4, _, h6⟩ := rrfLoopC_count tbl fsCost (tbl.length + 1) [opSel] [] [] 0 hf
   have he : recursivelyReferenced tbl opSel = added := by
     have := congrArg Prod.fst (rrfLoopC_erase tbl fsCost (tbl.length + 1) [opSel] [] [] 0)
     simp only [recursivelyReferenced, recursivelyReferencedF]
     rw [← this, h1]; simp
   rw [he]
-  refine ⟨?_, ?_, h4⟩
+  refine ⟨?_, ?_, h4, h6⟩
   · simp only [rrfSteps]; rw [h2]; simp [popSum]
   · have := unc_le_length (fragNames tbl) []
-    simp [fragNames] at this
+    have hl : (fragNames tbl).length = tbl.length := by simp [fragNames]
     omega
 
 theorem popCost_le_maxPop (fsCost) (tbl : List Frag) (f : Frag) (h : f ∈ tbl) : popCost fsCost f.sel ≤ maxPop fsCost tbl := by
@@ -234,9 +261,665 @@ theorem popSum_le (fsCost) (tbl : List Frag) (l : List Frag) (h : ∀ f, f ∈ l
 whatever the spread graph looks like (cycles, duplicate names) -/
 theorem rrfSteps_le (tbl : List Frag) (fsCost : SelectionSet → Nat) (opSel : SelectionSet) :
     rrfSteps tbl fsCost opSel ≤ popCost fsCost opSel + tbl.length * maxPop fsCost tbl := by
-  obtain ⟨h1, h2, h3⟩ := rrfSteps_eq tbl fsCost opSel
+  obtain ⟨h1, h2, h3, _⟩ := rrfSteps_eq tbl fsCost opSel
   have := popSum_le fsCost tbl _ h3
   have hm := Nat.mul_le_mul_right (maxPop fsCost tbl) h2
   omega
+
+/-! ## NoFragmentCycles -/
+
+theorem stepSpreadC_erase (tbl : List Frag) {recC : Frag → CState × CCnt → CState × CCnt} {rec : Frag → CState → CState}
+    (h : ∀ g sc, (recC g sc).1 = rec g sc.1) (sc : CState × CCnt) (sp : Spread) :
+    (stepSpreadC tbl recC sc sp).1 = stepSpread tbl rec sc.1 sp := by
+  unfold stepSpreadC stepSpread
+  simp only
+  cases hl : sc.1.index.lookup sp.name with
+  | some ci => simp only
+  | none =>
+    simp only
+    by_cases hv : sp.name ∈ sc.1.visited
+    · simp only [hv, if_true]
+    · simp only [hv, if_false]
+      cases hf : lookupFrag tbl sp.name with
+      | none => simp only
+      | some g => simp only [h]
+
+theorem foldC_erase (tbl : List Frag) {recC : Frag → CState × CCnt → CState × CCnt} {rec : Frag → CState → CState}
+    (h : ∀ g sc, (recC g sc).1 = rec g sc.1) (l : List Spread) (sc : CState × CCnt) :
+    (l.foldl (stepSpreadC tbl recC) sc).1 = l.foldl (stepSpread tbl rec) sc.1 := by
+  induction l generalizing sc with
+  | nil => rfl
+  | cons sp rest ih =>
+    simp only [List.foldl_cons]
+    rw [ih, stepSpreadC_erase tbl h]
+
+theorem detectBodyC_erase (tbl : List Frag) {recC : Frag → CState × CCnt → CState × CCnt} {rec : Frag → CState → CState}
+    (h : ∀ g sc, (recC g sc).1 = rec g sc.1) (f : Frag) (sc : CState × CCnt) :
+    (detectBodyC tbl recC f sc).1 = detectBody tbl rec f sc.1 := by
+  unfold detectBodyC detectBody
+  simp only
+  split
+  · rfl
+  · simp only
+    rw [foldC_erase tbl h]
+
+theorem detectC_erase (tbl : List Frag) : ∀ (fuel : Nat) (f : Frag) (sc : CState × CCnt),
+    (detectC tbl fuel f sc).1 = detect tbl fuel f sc.1
+  | 0, f, sc => rfl
+  | fuel + 1, f, sc => by
+    simp only [detectC, detect]
+    exact detectBodyC_erase tbl (detectC_erase tbl fuel) f sc
+
+/-- erasing the counters of `cycleRunC` gives back the modelled NoFragmentCycles run -/
+theorem cycleRunC_erase (tbl : List Frag) : (cycleRunC tbl).1 = cycleRun tbl := by
+  unfold cycleRunC cycleRun
+  have : ∀ (defs : List Frag) (sc : CState × CCnt),
+      (defs.foldl (fun sc f => if f.name.value ∈ sc.1.visited then sc else detectC tbl (tbl.length + 1) f sc) sc).1 =
+      defs.foldl (fun st f => if f.name.value ∈ st.visited then st else detect tbl (tbl.length + 1) f st) sc.1 := by
+    intro defs
+    induction defs with
+    | nil => intro sc; rfl
+    | cons f rest ih =>
+      intro sc
+      simp only [List.foldl_cons]
+      rw [ih]
+      congr 1
+      split
+      · rfl
+      · exact detectC_erase tbl _ f sc
+  exact this tbl _
+
+theorem nSpreads_le_max (tbl : List Frag) (f : Frag) (h : f ∈ tbl) : nSpreadsSet f.sel ≤ maxSpreads tbl := by
+  induction tbl with
+  | nil => cases h
+  | cons g gs ih =>
+    simp only [maxSpreads]
+    rcases List.mem_cons.1 h with rfl | h
+    · omega
+    · have := ih h; omega
+
+/-- what a run from `sc` to `r` may have cost: the path is restored, the visited set only grows, every call consumes an
+unvisited fragment name, and the loop iterations / copied path lengths are paid for by calls -/
+structure CEff (tbl : List Frag) (B : Nat) (extra : Nat) (sc r : CState × CCnt) : Prop where
+  path : r.1.path = sc.1.path
+  mono : ∀ x, x ∈ sc.1.visited → x ∈ r.1.visited
+  cost : ∃ dc di de, r.2.calls = sc.2.calls + dc ∧ r.2.iters = sc.2.iters + extra + di ∧ r.2.errLen = sc.2.errLen + de ∧
+    dc + unc (fragNames tbl) r.1.visited ≤ unc (fragNames tbl) sc.1.visited ∧
+    di ≤ dc * maxSpreads tbl ∧ de ≤ (extra + di) * (B + 1)
+
+def CGood (tbl : List Frag) (B k : Nat) (rec : Frag → CState × CCnt → CState × CCnt) : Prop :=
+  ∀ g sc, g ∈ tbl → g.name.value ∉ sc.1.visited → sc.1.path.length + k ≤ B → CEff tbl B 0 sc (rec g sc)
+
+theorem CEff.refl (tbl : List Frag) (B : Nat) (sc : CState × CCnt) : CEff tbl B 0 sc sc :=
+  ⟨rfl, fun _ h => h, 0, 0, 0, by simp⟩
+
+theorem CEff.trans {tbl : List Frag} {B e1 e2 : Nat} {a b c : CState × CCnt}
+    (h1 : CEff tbl B e1 a b) (h2 : CEff tbl B e2 b c) : CEff tbl B (e1 + e2) a c := by
+  obtain ⟨p1, m1, dc1, di1, de1, c1, i1, l1, u1, s1, t1⟩ := h1
+  obtain ⟨p2, m2, dc2, di2, de2, c2, i2, l2, u2, s2, t2⟩ := h2
+  refine ⟨p2.trans p1, fun x hx => m2 x (m1 x hx), dc1 + dc2, di1 + di2, de1 + de2, by omega, by omega, by omega, by omega, ?_, ?_⟩
+  · rw [Nat.add_mul]; omega
+  · have : (e1 + e2 + (di1 + di2)) * (B + 1) = (e1 + di1) * (B + 1) + (e2 + di2) * (B + 1) := by
+      rw [← Nat.add_mul]; congr 1; omega
+    omega
+
+theorem stepSpreadC_eff {tbl : List Frag} {B k : Nat} {rec : Frag → CState × CCnt → CState × CCnt}
+    (hrec : CGood tbl B k rec) (sc : CState × CCnt) (sp : Spread) (hp : sc.1.path.length + k + 1 ≤ B) :
+    CEff tbl B 1 sc (stepSpreadC tbl rec sc sp) := by
+  unfold stepSpreadC
+  cases hl : sc.1.index.lookup sp.name with
+  | none =>
+    -- not on the current path: push, maybe recurse, pop
+    by_cases hv : sp.name ∈ sc.1.visited
+    · simp only [hl, hv, if_true]
+      refine ⟨by simp, fun _ h => h, 0, 0, 0, by simp⟩
+    · simp only [hl, hv, if_false]
+      cases hf : lookupFrag tbl sp.name with
+      | none =>
+        simp only
+        refine ⟨by simp, fun _ h => h, 0, 0, 0, by simp⟩
+      | some g =>
+        simp only
+        have hg := lookupFrag_some hf
+        have hnv : g.name.value ∉ sc.1.visited := by rw [hg.2]; exact hv
+        have h := hrec g ({ sc.1 with path := sc.1.path ++ [sp] }, { sc.2 with iters := sc.2.iters + 1 }) hg.1 hnv
+          (by simp only [List.length_append, List.length_cons, List.length_nil]; omega)
+        obtain ⟨p, m, dc, di, de, c1, i1, l1, u1, s1, t1⟩ := h
+        refine ⟨by simp only [p]; simp, m, dc, di, de, c1, by simp only at i1; omega, l1, u1, s1, ?_⟩
+        have e1 : (1 + di) * (B + 1) = (B + 1) + di * (B + 1) := by rw [Nat.add_mul, Nat.one_mul]
+        have e0 : (0 + di) * (B + 1) = di * (B + 1) := by rw [Nat.zero_add]
+        omega
+  | some ci =>
+    -- on the path: one error, the tail of the path is copied
+    simp only [hl]
+    refine ⟨rfl, fun _ h => h, 0, 0, (List.drop ci sc.1.path ++ [sp]).length, by simp, by simp, by simp, by simp, by simp, ?_⟩
+    have : (List.drop ci sc.1.path).length ≤ sc.1.path.length := by simp
+    simp only [List.length_append, List.length_cons, List.length_nil, Nat.add_zero, Nat.one_mul]
+    omega
+
+theorem foldC_eff {tbl : List Frag} {B k : Nat} {rec : Frag → CState × CCnt → CState × CCnt}
+    (hrec : CGood tbl B k rec) (l : List Spread) (sc : CState × CCnt) (hp : sc.1.path.length + k + 1 ≤ B) :
+    CEff tbl B l.length sc (l.foldl (stepSpreadC tbl rec) sc) := by
+  induction l generalizing sc with
+  | nil => exact CEff.refl tbl B sc
+  | cons sp rest ih =>
+    simp only [List.foldl_cons, List.length_cons]
+    have h1 := stepSpreadC_eff hrec sc sp hp
+    have h2 := ih (stepSpreadC tbl rec sc sp) (by rw [h1.path]; exact hp)
+    have := h1.trans h2
+    rwa [Nat.add_comm] at this
+
+theorem detectBodyC_good {tbl : List Frag} {B k : Nat} {rec : Frag → CState × CCnt → CState × CCnt}
+    (hrec : CGood tbl B k rec) : CGood tbl B (k + 1) (detectBodyC tbl rec) := by
+  intro f sc hf hnv hp
+  have hname : f.name.value ∈ fragNames tbl := List.mem_map.2 ⟨f, hf, rfl⟩
+  have hunc := unc_cons_lt (fragNames tbl) sc.1.visited f.name.value hname hnv
+  unfold detectBodyC
+  simp only
+  split
+  · exact ⟨rfl, fun x hx => List.mem_cons_of_mem _ hx, 1, 0, 0, by simp, by simp, by simp, by simp only; omega, by simp, by simp⟩
+  · have h := foldC_eff hrec (fragmentSpreads f.sel)
+      ({ sc.1 with visited := f.name.value :: sc.1.visited,
+                   index := (f.name.value, sc.1.path.length) :: sc.1.index },
+       { sc.2 with calls := sc.2.calls + 1 }) (by simp only; omega)
+    obtain ⟨p, m, dc, di, de, c1, i1, l1, u1, s1, t1⟩ := h
+    have hL : (fragmentSpreads f.sel).length ≤ maxSpreads tbl := by
+      rw [fragmentSpreads_length]; exact nSpreads_le_max tbl f hf
+    refine ⟨by simp only [p], fun x hx => m x (List.mem_cons_of_mem _ hx), 1 + dc, (fragmentSpreads f.sel).length + di, de,
+      by simp only at c1 ⊢; omega, by simp only at i1 ⊢; omega, by simp only at l1 ⊢; omega,
+      by simp only at u1 ⊢; omega, ?_, by simpa using t1⟩
+    rw [Nat.add_mul, Nat.one_mul]
+    omega
+
+theorem detectC_good (tbl : List Frag) (B : Nat) : ∀ k, CGood tbl B k (detectC tbl k)
+  | 0 => fun g sc _ _ _ => ⟨rfl, fun _ h => h, 0, 0, 0, by simp [detectC]⟩
+  | k + 1 => detectBodyC_good (detectC_good tbl B k)
+
+/-- NoFragmentCycles: at most one `detectCycleRecursive` call per fragment definition, at most `maxSpreads` loop
+iterations per call, and every error copies a path no longer than the recursion is deep -/
+theorem cycleRunC_le (tbl : List Frag) :
+    (cycleRunC tbl).2.calls ≤ tbl.length ∧
+    (cycleRunC tbl).2.iters ≤ (cycleRunC tbl).2.calls * maxSpreads tbl ∧
+    (cycleRunC tbl).2.errLen ≤ (cycleRunC tbl).2.iters * (tbl.length + 2) := by
+  have key : ∀ (defs : List Frag) (sc : CState × CCnt), (∀ f, f ∈ defs → f ∈ tbl) → sc.1.path = [] →
+      CEff tbl (tbl.length + 1) 0 sc
+        (defs.foldl (fun sc f => if f.name.value ∈ sc.1.visited then sc else detectC tbl (tbl.length + 1) f sc) sc) := by
+    intro defs
+    induction defs with
+    | nil => intro sc _ _; exact CEff.refl tbl _ sc
+    | cons f rest ih =>
+      intro sc hsub hp
+      simp only [List.foldl_cons]
+      have h1 : CEff tbl (tbl.length + 1) 0 sc
+          (if f.name.value ∈ sc.1.visited then sc else detectC tbl (tbl.length + 1) f sc) := by
+        split
+        · exact CEff.refl tbl _ sc
+        · rename_i hv
+          exact detectC_good tbl (tbl.length + 1) (tbl.length + 1) f sc (hsub f List.mem_cons_self) hv
+            (by rw [hp]; simp)
+      have h2 := ih _ (fun g hg => hsub g (List.mem_cons_of_mem _ hg)) (by rw [h1.path]; exact hp)
+      exact h1.trans h2
+  have h := key tbl (CState.init, ⟨0, 0, 0⟩) (fun _ h => h) rfl
+  obtain ⟨_, _, dc, di, de, c1, i1, l1, u1, s1, t1⟩ := h
+  have hu := unc_le_length (fragNames tbl) CState.init.visited
+  have hl : (fragNames tbl).length = tbl.length := by simp [fragNames]
+  unfold cycleRunC
+  simp only at c1 i1 l1
+  rw [c1, i1, l1]
+  simp only [Nat.zero_add] at *
+  refine ⟨by omega, s1, ?_⟩
+  have : tbl.length + 1 + 1 = tbl.length + 2 := rfl
+  rw [this] at t1
+  exact t1
+
+/-! ## sizes -/
+
+theorem sum_le_of_distinct_names (g : Frag → Nat) : ∀ (l tbl : List Frag),
+    (l.map (·.name.value)).Nodup → (∀ f, f ∈ l → f ∈ tbl) → (l.map g).sum ≤ (tbl.map g).sum
+  | [], tbl, _, _ => by simp
+  | f :: rest, tbl, hnd, hsub => by
+    obtain ⟨a, b, rfl⟩ := List.append_of_mem (hsub f List.mem_cons_self)
+    have hnd' : f.name.value ∉ rest.map (·.name.value) ∧ (rest.map (·.name.value)).Nodup :=
+      List.nodup_cons.1 hnd
+    have hrest : ∀ x, x ∈ rest → x ∈ a ++ b := by
+      intro x hx
+      have hm := hsub x (List.mem_cons_of_mem _ hx)
+      have hne : x ≠ f := fun h => hnd'.1 (List.mem_map.2 ⟨x, hx, by rw [h]⟩)
+      simp only [List.mem_append, List.mem_cons] at hm ⊢
+      rcases hm with h | h | h
+      · exact Or.inl h
+      · exact absurd h hne
+      · exact Or.inr h
+    have ih := sum_le_of_distinct_names g rest (a ++ b) hnd'.2 hrest
+    simp only [List.map_cons, List.sum_cons, List.map_append, List.sum_append_nat] at ih ⊢
+    omega
+
+theorem sum_map_le_sum_map {α : Type} (g h : α → Nat) (l : List α) (hle : ∀ x, x ∈ l → g x ≤ h x) :
+    (l.map g).sum ≤ (l.map h).sum := by
+  induction l with
+  | nil => simp
+  | cons x xs ih =>
+    have h1 := hle x List.mem_cons_self
+    have h2 := ih (fun y hy => hle y (List.mem_cons_of_mem _ hy))
+    simp only [List.map_cons, List.sum_cons]; omega
+
+theorem sum_map_le_mul {α : Type} (g : α → Nat) (l : List α) (B : Nat) (hle : ∀ x, x ∈ l → g x ≤ B) :
+    (l.map g).sum ≤ l.length * B := by
+  induction l with
+  | nil => simp
+  | cons x xs ih =>
+    have h1 := hle x List.mem_cons_self
+    have h2 := ih (fun y hy => hle y (List.mem_cons_of_mem _ hy))
+    simp only [List.map_cons, List.sum_cons, List.length_cons, Nat.succ_mul]; omega
+
+theorem le_sum_map_of_mem {α : Type} (g : α → Nat) (l : List α) (x : α) (h : x ∈ l) : g x ≤ (l.map g).sum := by
+  induction l with
+  | nil => cases h
+  | cons y ys ih =>
+    simp only [List.map_cons, List.sum_cons]
+    rcases List.mem_cons.1 h with rfl | h
+    · omega
+    · have := ih h; omega
+
+mutual
+theorem sets_sels_le_sel : ∀ x : Selection, setsSel x + selsSel x ≤ nodesSel x
+  | .field alias n args ds sel l => by
+    have := sets_sels_le_opt sel
+    simp only [setsSel, selsSel, nodesSel]; omega
+  | .spread n ds l => by simp only [setsSel, selsSel, nodesSel]; omega
+  | .inline tc ds ss l => by
+    have := sets_sels_le_set ss
+    simp only [setsSel, selsSel, nodesSel]; omega
+theorem sets_sels_le_set : ∀ x : SelectionSet, setsSet x + selsSet x ≤ nodesSet x
+  | .mk sels l => by
+    have := sets_sels_le_sels sels
+    simp only [setsSet, selsSet, nodesSet]; omega
+theorem sets_sels_le_opt : ∀ x : Option SelectionSet, setsOpt x + selsOpt x ≤ nodesOpt x
+  | none => by simp [setsOpt, selsOpt, nodesOpt]
+  | some ss => by simpa [setsOpt, selsOpt, nodesOpt] using sets_sels_le_set ss
+theorem sets_sels_le_sels : ∀ x : List Selection, setsSels x + selsSels x ≤ nodesSels x
+  | [] => by simp [setsSels, selsSels, nodesSels]
+  | x :: xs => by
+    have := sets_sels_le_sel x
+    have := sets_sels_le_sels xs
+    simp only [setsSels, selsSels, nodesSels]; omega
+end
+
+mutual
+theorem spreads_le_sel : ∀ x : Selection, (spreadsSel x).length ≤ selsSel x
+  | .field alias n args ds sel l => by
+    have := spreads_le_opt sel
+    simp only [spreadsSel, selsSel]; omega
+  | .spread n ds l => by simp [spreadsSel, selsSel]
+  | .inline tc ds ss l => by
+    have := spreads_le_set ss
+    simp only [spreadsSel, selsSel]; omega
+theorem spreads_le_set : ∀ x : SelectionSet, (spreadsSet x).length ≤ selsSet x
+  | .mk sels l => by simpa [spreadsSet, selsSet] using spreads_le_sels sels
+theorem spreads_le_opt : ∀ x : Option SelectionSet, (spreadsOpt x).length ≤ selsOpt x
+  | none => by simp [spreadsOpt, selsOpt]
+  | some ss => by simpa [spreadsOpt, selsOpt] using spreads_le_set ss
+theorem spreads_le_sels : ∀ x : List Selection, (spreadsSels x).length ≤ selsSels x
+  | [] => by simp [spreadsSels, selsSels]
+  | x :: xs => by
+    have := spreads_le_sel x
+    have := spreads_le_sels xs
+    simp only [spreadsSels, selsSels, List.length_append]; omega
+end
+
+theorem fsSteps_le_nodes (ss : SelectionSet) : fsSteps ss ≤ nodesSet ss := by
+  rw [fsSteps_eq]; exact sets_sels_le_set ss
+
+theorem nSpreads_le_nodes (ss : SelectionSet) : nSpreadsSet ss ≤ nodesSet ss := by
+  have h1 := spreads_le_set ss
+  have h2 := sets_sels_le_set ss
+  simp only [nSpreadsSet]; omega
+
+mutual
+theorem valueUsages_le (s : Schema) : ∀ (t : Option GType) (v : Value), (valueUsages s t v).length ≤ nodesValue v
+  | t, .var n l => by simp [valueUsages, nodesValue]
+  | t, .list vs l => by
+    have := valuesUsages_le s (listItemType t) vs
+    simp only [valueUsages, nodesValue]; omega
+  | t, .obj fs l => by
+    have := objFieldsUsages_le s t fs
+    simp only [valueUsages, nodesValue]; omega
+  | t, .int _ _ => by simp [valueUsages]
+  | t, .float _ _ => by simp [valueUsages]
+  | t, .str _ _ => by simp [valueUsages]
+  | t, .bool _ _ => by simp [valueUsages]
+  | t, .enum _ _ => by simp [valueUsages]
+theorem valuesUsages_le (s : Schema) : ∀ (t : Option GType) (vs : List Value), (valuesUsages s t vs).length ≤ nodesValues vs
+  | t, [] => by simp [valuesUsages, nodesValues]
+  | t, v :: vs => by
+    have := valueUsages_le s t v
+    have := valuesUsages_le s t vs
+    simp only [valuesUsages, nodesValues, List.length_append]; omega
+theorem objFieldUsages_le (s : Schema) : ∀ (t : Option GType) (f : ObjField), (objFieldUsages s t f).length ≤ nodesObjField f
+  | t, .mk n v l => by
+    have := valueUsages_le s (inputFieldType s t n.value) v
+    simp only [objFieldUsages, nodesObjField]; omega
+theorem objFieldsUsages_le (s : Schema) : ∀ (t : Option GType) (fs : List ObjField), (objFieldsUsages s t fs).length ≤ nodesObjFields fs
+  | t, [] => by simp [objFieldsUsages, nodesObjFields]
+  | t, f :: fs => by
+    have := objFieldUsages_le s t f
+    have := objFieldsUsages_le s t fs
+    simp only [objFieldsUsages, nodesObjFields, List.length_append]; omega
+end
+
+theorem argsUsages_le (s : Schema) (dir : Option DirectiveDefS) (fd : Option FieldDefS) (args : List Argument) :
+    (argsUsages s dir fd args).length ≤ nodesArgs args := by
+  induction args with
+  | nil => simp [argsUsages, nodesArgs]
+  | cons a rest ih =>
+    have := valueUsages_le s ((argDefFor dir fd a.name.value).map (·.type)) a.value
+    simp only [argsUsages, nodesArgs, List.flatMap_cons, List.length_append, List.map_cons, List.sum_cons] at ih ⊢
+    omega
+
+theorem dirsUsages_le (s : Schema) (dirs : List Directive) : (dirsUsages s dirs).length ≤ nodesDirs dirs := by
+  induction dirs with
+  | nil => simp [dirsUsages, nodesDirs]
+  | cons d rest ih =>
+    have := argsUsages_le s (s.directive? d.name.value) none d.args
+    simp only [dirsUsages, nodesDirs, List.flatMap_cons, List.length_append, List.map_cons, List.sum_cons] at ih ⊢
+    omega
+
+mutual
+theorem selUsages_le (s : Schema) : ∀ (c : TCtx) (x : Selection), (selUsages s c x).length ≤ nodesSel x
+  | c, .field alias nm args dirs sel l => by
+    have h1 := argsUsages_le s none (c.enterField s nm.value).fieldDef args
+    have h2 := dirsUsages_le s dirs
+    have h3 := optUsages_le s (c.enterField s nm.value) sel
+    simp only [selUsages, nodesSel, List.length_append]; omega
+  | c, .spread n dirs l => by
+    have h2 := dirsUsages_le s dirs
+    simp only [selUsages, nodesSel]; omega
+  | c, .inline tc dirs ss l => by
+    have h2 := dirsUsages_le s dirs
+    have h3 := setUsages_le s (c.enterInline s tc) ss
+    simp only [selUsages, nodesSel, List.length_append]; omega
+theorem setUsages_le (s : Schema) : ∀ (c : TCtx) (x : SelectionSet), (setUsages s c x).length ≤ nodesSet x
+  | c, .mk sels l => by
+    have := selsUsages_le s (c.enterSelSet s) sels
+    simp only [setUsages, nodesSet]; omega
+theorem optUsages_le (s : Schema) : ∀ (c : TCtx) (x : Option SelectionSet), (optUsages s c x).length ≤ nodesOpt x
+  | c, none => by simp [optUsages, nodesOpt]
+  | c, some ss => by simpa [optUsages, nodesOpt] using setUsages_le s c ss
+theorem selsUsages_le (s : Schema) : ∀ (c : TCtx) (x : List Selection), (selsUsages s c x).length ≤ nodesSels x
+  | c, [] => by simp [selsUsages, nodesSels]
+  | c, x :: xs => by
+    have := selUsages_le s c x
+    have := selsUsages_le s c xs
+    simp only [selsUsages, nodesSels, List.length_append]; omega
+end
+
+theorem varUsagesOp_le (s : Schema) (o : Op) : (varUsagesOp s o).length ≤ nodesOp o := by
+  have h1 := dirsUsages_le s o.dirs
+  have h2 := setUsages_le s (TCtx.enterOp s o.kind) o.sel
+  simp only [varUsagesOp, nodesOp, List.length_append]; omega
+
+theorem varUsagesFrag_le (s : Schema) (f : Frag) : (varUsagesFrag s f).length ≤ nodesFrag f := by
+  have h1 := dirsUsages_le s f.dirs
+  have h2 := setUsages_le s (TCtx.enterFragment s f.typeCond) f.sel
+  simp only [varUsagesFrag, nodesFrag, List.length_append]; omega
+
+theorem vars_le_nodesOp (o : Op) : o.vars.length ≤ nodesOp o := by
+  have : o.vars.length ≤ (o.vars.map nodesVarDef).sum := by
+    generalize o.vars = vs
+    induction vs with
+    | nil => simp
+    | cons v rest ih => simp only [List.length_cons, List.map_cons, List.sum_cons, nodesVarDef]; omega
+  simp only [nodesOp]; omega
+
+theorem nodesSet_le_op (o : Op) : nodesSet o.sel ≤ nodesOp o := by simp only [nodesOp]; omega
+theorem nodesSet_le_frag (f : Frag) : nodesSet f.sel ≤ nodesFrag f := by simp only [nodesFrag]; omega
+
+theorem maxSpreads_le (tbl : List Frag) (B : Nat) (h : ∀ f, f ∈ tbl → nSpreadsSet f.sel ≤ B) : maxSpreads tbl ≤ B := by
+  induction tbl with
+  | nil => simp [maxSpreads]
+  | cons f rest ih =>
+    have := h f List.mem_cons_self
+    have := ih (fun g hg => h g (List.mem_cons_of_mem _ hg))
+    simp only [maxSpreads]; omega
+
+theorem maxFs_le (tbl : List Frag) (B : Nat) (h : ∀ f, f ∈ tbl → fsSteps f.sel ≤ B) : maxFs tbl ≤ B := by
+  induction tbl with
+  | nil => simp [maxFs]
+  | cons f rest ih =>
+    have := h f List.mem_cons_self
+    have := ih (fun g hg => h g (List.mem_cons_of_mem _ hg))
+    simp only [maxFs]; omega
+
+/-- the concatenated usages of an operation: its own plus those of the closure -/
+theorem recursiveUsages_length (s : Schema) (tbl : List Frag) (o : Op) :
+    (recursiveUsages s tbl o).length =
+      (varUsagesOp s o).length + ((recursivelyReferenced tbl o.sel).map (fun f => (varUsagesFrag s f).length)).sum := by
+  simp only [recursiveUsages, List.length_append, List.length_flatMap]
+
+/-- the cycle rule's work, from the counter bounds -/
+theorem cyclesWork_le (tbl : List Frag) (X S : Nat) (hS : maxSpreads tbl ≤ S) :
+    cyclesWork tbl X ≤ cyclesBound tbl.length S X := by
+  obtain ⟨h1, h2, h3⟩ := cycleRunC_le tbl
+  simp only [cyclesWork, cyclesBound]
+  generalize (cycleRunC tbl).2.calls = c at *
+  generalize (cycleRunC tbl).2.iters = i at *
+  generalize (cycleRunC tbl).2.errLen = e at *
+  have a1 : c * (1 + X) ≤ tbl.length * (1 + X) := Nat.mul_le_mul_right _ h1
+  have a2 : i ≤ tbl.length * S := Nat.le_trans h2 (Nat.mul_le_mul h1 hS)
+  have a3 : e ≤ tbl.length * S * (tbl.length + 2) := Nat.le_trans h3 (Nat.mul_le_mul_right _ a2)
+  omega
+
+/-! ## the work of the five graph rules -/
+
+theorem sum_map_le_mul_add {α : Type} (g h : α → Nat) (l : List α) (B : Nat) (hle : ∀ x, x ∈ l → g x ≤ B + h x) :
+    (l.map g).sum ≤ l.length * B + (l.map h).sum := by
+  induction l with
+  | nil => simp
+  | cons x xs ih =>
+    have h1 := hle x List.mem_cons_self
+    have h2 := ih (fun y hy => hle y (List.mem_cons_of_mem _ hy))
+    simp only [List.map_cons, List.sum_cons, List.length_cons, Nat.succ_mul]; omega
+
+section
+variable (s : Schema) (d : Document)
+
+/-- total nodes of the operation / fragment definitions -/
+def opNodes (d : Document) : Nat := ((opDefs d).map nodesOp).sum
+def fragNodes (d : Document) : Nat := ((fragDefs d).map nodesFrag).sum
+
+theorem docNodes_split : docNodes d = opNodes d + fragNodes d := rfl
+
+theorem popSum_map_sel (fsCost) (l : List Frag) :
+    popSum fsCost (l.map (·.sel)) = (l.map (fun f => popCost fsCost f.sel)).sum := by
+  simp [popSum, List.map_map, Function.comp_def]
+
+theorem rrfSteps_uncached_le (o : Op) :
+    rrfSteps (fragDefs d) fsSteps o.sel ≤ 1 + (fragDefs d).length + 2 * (nodesOp o + fragNodes d) := by
+  obtain ⟨h1, _, h3, h4⟩ := rrfSteps_eq (fragDefs d) fsSteps o.sel
+  rw [h1, popSum_map_sel]
+  have hs := sum_le_of_distinct_names (fun f => popCost fsSteps f.sel) _ (fragDefs d) h4 h3
+  have hb : ((fragDefs d).map (fun f => popCost fsSteps f.sel)).sum ≤
+      (fragDefs d).length * 1 + ((fragDefs d).map (fun f => 2 * nodesFrag f)).sum :=
+    sum_map_le_mul_add _ _ _ 1 (fun f _ => by
+      have := fsSteps_le_nodes f.sel
+      have := nSpreads_le_nodes f.sel
+      have := nodesSet_le_frag f
+      simp only [popCost]; omega)
+  have h2 : ((fragDefs d).map (fun f => 2 * nodesFrag f)).sum = 2 * fragNodes d := by
+    simp only [fragNodes]
+    generalize fragDefs d = l
+    induction l with
+    | nil => simp
+    | cons f rest ih => simp only [List.map_cons, List.sum_cons, ih]; omega
+  have := fsSteps_le_nodes o.sel
+  have := nSpreads_le_nodes o.sel
+  have := nodesSet_le_op o
+  have hp : popCost fsSteps o.sel = 1 + fsSteps o.sel + nSpreadsSet o.sel := rfl
+  rw [hp]
+  omega
+
+theorem rrfSteps_cached_le (o : Op) :
+    rrfSteps (fragDefs d) (fun _ => 1) o.sel ≤
+      2 + nSpreadsSet o.sel + 2 * (fragDefs d).length + ((fragDefs d).map (fun f => nSpreadsSet f.sel)).sum := by
+  obtain ⟨h1, _, h3, h4⟩ := rrfSteps_eq (fragDefs d) (fun _ => 1) o.sel
+  rw [h1, popSum_map_sel]
+  have hs := sum_le_of_distinct_names (fun f => popCost (fun _ => 1) f.sel) _ (fragDefs d) h4 h3
+  have hb : ((fragDefs d).map (fun f => popCost (fun _ => 1) f.sel)).sum ≤
+      (fragDefs d).length * 2 + ((fragDefs d).map (fun f => nSpreadsSet f.sel)).sum :=
+    sum_map_le_mul_add _ _ _ 2 (fun f _ => by simp only [popCost]; omega)
+  have hp : popCost (fun _ => 1) o.sel = 1 + 1 + nSpreadsSet o.sel := rfl
+  rw [hp]
+  omega
+
+theorem closure_usages_le (o : Op) :
+    ((recursivelyReferenced (fragDefs d) o.sel).map (fun f => (varUsagesFrag s f).length)).sum ≤
+      ((fragDefs d).map (fun f => (varUsagesFrag s f).length)).sum := by
+  obtain ⟨_, _, h3, h4⟩ := rrfSteps_eq (fragDefs d) fsSteps o.sel
+  exact sum_le_of_distinct_names _ _ _ h4 h3
+
+theorem closure_traversals_le (o : Op) :
+    ((recursivelyReferenced (fragDefs d) o.sel).map (fun f => vuCostFrag f + (varUsagesFrag s f).length)).sum ≤
+      3 * fragNodes d := by
+  obtain ⟨_, _, h3, h4⟩ := rrfSteps_eq (fragDefs d) fsSteps o.sel
+  have h := sum_le_of_distinct_names (fun f => vuCostFrag f + (varUsagesFrag s f).length) _ _ h4 h3
+  have hb : ((fragDefs d).map (fun f => vuCostFrag f + (varUsagesFrag s f).length)).sum ≤
+      ((fragDefs d).map (fun f => 3 * nodesFrag f)).sum :=
+    sum_map_le_sum_map _ _ _ (fun f _ => by
+      have := varUsagesFrag_le s f
+      simp only [vuCostFrag]; omega)
+  have h2 : ((fragDefs d).map (fun f => 3 * nodesFrag f)).sum = 3 * fragNodes d := by
+    simp only [fragNodes]
+    generalize fragDefs d = l
+    induction l with
+    | nil => simp
+    | cons f rest ih => simp only [List.map_cons, List.sum_cons, ih]; omega
+  omega
+
+theorem fragUsages_le_fragNodes :
+    ((fragDefs d).map (fun f => (varUsagesFrag s f).length)).sum ≤ fragNodes d :=
+  sum_map_le_sum_map _ _ _ (fun f _ => varUsagesFrag_le s f)
+
+theorem fragSpreads_le_fragNodes : ((fragDefs d).map (fun f => nSpreadsSet f.sel)).sum ≤ fragNodes d :=
+  sum_map_le_sum_map _ _ _ (fun f _ => Nat.le_trans (nSpreads_le_nodes f.sel) (nodesSet_le_frag f))
+
+theorem maxSpreads_le_docSpreads : maxSpreads (fragDefs d) ≤ docSpreads d := by
+  apply maxSpreads_le
+  intro f hf
+  have := le_sum_map_of_mem (fun f => nSpreadsSet f.sel) (fragDefs d) f hf
+  simp only [docSpreads]; omega
+
+theorem docSpreads_le_docNodes : docSpreads d ≤ docNodes d := by
+  have h1 : ((opDefs d).map (fun o => nSpreadsSet o.sel)).sum ≤ opNodes d :=
+    sum_map_le_sum_map _ _ _ (fun o _ => Nat.le_trans (nSpreads_le_nodes o.sel) (nodesSet_le_op o))
+  have h2 := fragSpreads_le_fragNodes d
+  simp only [docSpreads, docNodes_split]; omega
+
+theorem docUsages_le_docNodes : docUsages s d ≤ docNodes d := by
+  have h1 : ((opDefs d).map (fun o => (varUsagesOp s o).length)).sum ≤ opNodes d :=
+    sum_map_le_sum_map _ _ _ (fun o _ => varUsagesOp_le s o)
+  have h2 := fragUsages_le_fragNodes s d
+  simp only [docUsages, docNodes_split]; omega
+
+/-- WITHOUT the caches -/
+theorem graphWorkUncached_le :
+    graphWorkUncached s d ≤ graphBoundUncached (nOps d) (nFragDefs d) (docNodes d) := by
+  have hN := docNodes_split d
+  -- cycles
+  have hS : maxSpreads (fragDefs d) ≤ docNodes d :=
+    Nat.le_trans (maxSpreads_le_docSpreads d) (docSpreads_le_docNodes d)
+  have hX : maxFs (fragDefs d) ≤ docNodes d := by
+    apply maxFs_le
+    intro f hf
+    have := fsSteps_le_nodes f.sel
+    have := nodesSet_le_frag f
+    have := le_sum_map_of_mem nodesFrag (fragDefs d) f hf
+    simp only [docNodes_split, fragNodes]; omega
+  have hc := cyclesWork_le (fragDefs d) (maxFs (fragDefs d)) (docNodes d) hS
+  have hc2 : cyclesBound (fragDefs d).length (docNodes d) (maxFs (fragDefs d)) ≤
+      cyclesBound (fragDefs d).length (docNodes d) (docNodes d) := by
+    simp only [cyclesBound]
+    have := Nat.mul_le_mul_left (fragDefs d).length (Nat.add_le_add_left hX 1)
+    omega
+  -- per operation
+  have hA : ((opDefs d).map (fun o => rrfSteps (fragDefs d) fsSteps o.sel)).sum ≤
+      (opDefs d).length * (1 + (fragDefs d).length + 2 * docNodes d) :=
+    sum_map_le_mul _ _ _ (fun o ho => by
+      have := rrfSteps_uncached_le d o
+      have := le_sum_map_of_mem nodesOp (opDefs d) o ho
+      simp only [docNodes_split, opNodes]; omega)
+  have hB : ((opDefs d).map (fun o =>
+      3 * (recUsagesWork s (fragDefs d) fsSteps o + (recursiveUsages s (fragDefs d) o).length) + o.vars.length)).sum ≤
+      (opDefs d).length * (3 + 3 * (fragDefs d).length + 19 * docNodes d) :=
+    sum_map_le_mul _ _ _ (fun o ho => by
+      have h1 := rrfSteps_uncached_le d o
+      have h2 := le_sum_map_of_mem nodesOp (opDefs d) o ho
+      have h3 := closure_traversals_le s d o
+      have h4 := closure_usages_le s d o
+      have h5 := fragUsages_le_fragNodes s d
+      have h6 := varUsagesOp_le s o
+      have h7 := vars_le_nodesOp o
+      rw [recursiveUsages_length]
+      simp only [recUsagesWork, vuCostOp, docNodes_split, opNodes] at *
+      omega)
+  simp only [graphWorkUncached, graphBoundUncached, nOps, nFragDefs]
+  have e : (opDefs d).length * (4 + 4 * (fragDefs d).length + 21 * docNodes d) =
+      (opDefs d).length * (1 + (fragDefs d).length + 2 * docNodes d) +
+      (opDefs d).length * (3 + 3 * (fragDefs d).length + 19 * docNodes d) := by
+    rw [← Nat.mul_add]; congr 1; omega
+  rw [e]
+  omega
+
+/-- WITH the caches (the code as it is) -/
+theorem graphWorkCached_le :
+    graphWorkCached s d ≤ graphBoundCached (nOps d) (nFragDefs d) (docNodes d) (docSpreads d) (docUsages s d) := by
+  have hN := docNodes_split d
+  have hc := cyclesWork_le (fragDefs d) 1 (docSpreads d) (maxSpreads_le_docSpreads d)
+  have h1 : ((opDefs d).map (fun o => fsSteps o.sel)).sum ≤ opNodes d :=
+    sum_map_le_sum_map _ _ _ (fun o _ => Nat.le_trans (fsSteps_le_nodes o.sel) (nodesSet_le_op o))
+  have h2 : ((fragDefs d).map (fun f => fsSteps f.sel)).sum ≤ fragNodes d :=
+    sum_map_le_sum_map _ _ _ (fun f _ => Nat.le_trans (fsSteps_le_nodes f.sel) (nodesSet_le_frag f))
+  have h3 : ((opDefs d).map vuCostOp).sum = 2 * opNodes d := by
+    simp only [opNodes]
+    generalize opDefs d = l
+    induction l with
+    | nil => simp
+    | cons o rest ih => simp only [List.map_cons, List.sum_cons, ih, vuCostOp]; omega
+  have h4 : ((fragDefs d).map vuCostFrag).sum = 2 * fragNodes d := by
+    simp only [fragNodes]
+    generalize fragDefs d = l
+    induction l with
+    | nil => simp
+    | cons f rest ih => simp only [List.map_cons, List.sum_cons, ih, vuCostFrag]; omega
+  have hU : ∀ o, o ∈ opDefs d → (recursiveUsages s (fragDefs d) o).length ≤ docUsages s d := by
+    intro o ho
+    rw [recursiveUsages_length]
+    have := closure_usages_le s d o
+    have := le_sum_map_of_mem (fun o => (varUsagesOp s o).length) (opDefs d) o ho
+    simp only [docUsages]; omega
+  have h5 : ((opDefs d).map (fun o => rrfSteps (fragDefs d) (fun _ => 1) o.sel +
+      (recursiveUsages s (fragDefs d) o).length + (recursivelyReferenced (fragDefs d) o.sel).length)).sum ≤
+      (opDefs d).length * (2 + 3 * (fragDefs d).length + docSpreads d + docUsages s d) :=
+    sum_map_le_mul _ _ _ (fun o ho => by
+      have a := rrfSteps_cached_le d o
+      have b := hU o ho
+      have c := (rrfSteps_eq (fragDefs d) fsSteps o.sel).2.1
+      have e := le_sum_map_of_mem (fun o => nSpreadsSet o.sel) (opDefs d) o ho
+      simp only [docSpreads] at *
+      omega)
+  have h6 : ((opDefs d).map (fun o => 3 * (1 + (recursiveUsages s (fragDefs d) o).length) + o.vars.length)).sum ≤
+      (opDefs d).length * (3 + 3 * docUsages s d) + opNodes d :=
+    sum_map_le_mul_add _ nodesOp _ _ (fun o ho => by
+      have b := hU o ho
+      have c := vars_le_nodesOp o
+      omega)
+  simp only [graphWorkCached, graphBoundCached, nOps, nFragDefs]
+  have e : (opDefs d).length * (6 + 3 * (fragDefs d).length + docSpreads d + 4 * docUsages s d) =
+      (opDefs d).length * (2 + 3 * (fragDefs d).length + docSpreads d + docUsages s d) +
+      (opDefs d).length * (3 + 3 * docUsages s d) + (opDefs d).length := by
+    rw [← Nat.mul_add, ← Nat.mul_succ]; congr 1; omega
+  rw [e]
+  omega
+
+end
 
 end GqlModel.Validate.Graph
